@@ -1120,7 +1120,7 @@ func ruleBrokerListeners(c *Ctx) {
 	cinfo := cl.Pkg.TypesInfo
 	var fromField func(f *Func, e ast.Expr, depth int) bool
 	fromField = func(f *Func, e ast.Expr, depth int) bool {
-		if depth > 3 || e == nil {
+		if depth > 6 || e == nil {
 			return false
 		}
 		fi := f.Pkg.TypesInfo
@@ -1219,13 +1219,32 @@ func ruleBrokerListeners(c *Ctx) {
 		return false
 	}
 	var stopNode *Node
+	var stopNodes []*Node
+	sinfo := stop.Pkg.TypesInfo
+	isStopName := func(n string) bool {
+		return n == "google.golang.org/grpc.Server.Stop" || n == "google.golang.org/grpc.Server.GracefulStop"
+	}
 	for _, m := range sg.Nodes {
 		if m.Ast == nil {
 			continue
 		}
 		for _, call := range callsIn(m.Ast) {
-			if n := p.CalleeName(stop, call); n == "google.golang.org/grpc.Server.Stop" || n == "google.golang.org/grpc.Server.GracefulStop" {
+			hit := isStopName(p.CalleeName(stop, call))
+			if !hit {
+				// a call through a local bound once to the method value s.server.Stop
+				if v, ok := identObj(sinfo, call.Fun).(*types.Var); ok && !v.IsField() {
+					if d := p.singleDef(stop, v); d != nil {
+						if se, ok := ast.Unparen(d).(*ast.SelectorExpr); ok {
+							if fn, ok := sinfo.Uses[se.Sel].(*types.Func); ok && fn.Pkg() != nil && isStopName(fn.Pkg().Path()+".Server."+fn.Name()) {
+								hit = true
+							}
+						}
+					}
+				}
+			}
+			if hit {
 				stopNode = m
+				stopNodes = append(stopNodes, m)
 			}
 		}
 	}
@@ -1233,8 +1252,34 @@ func ruleBrokerListeners(c *Ctx) {
 		c.R.Undecided("R-RES/brokerls", stop.Name, "anchor", "no call of grpc.Server.Stop found")
 		return
 	}
-	before := sg.Reach([]*Node{sg.Entry}, closesBroker, nil)
-	if _, r := before[stopNode]; r {
+	// with no broker there is nothing to close: the nil edge of a test of the
+	// broker field (or of a local bound once to it) counts as closed
+	brokerF := p.FieldObj(modPath, "GRPCServer", "broker")
+	noBroker := func(e *Edge) bool {
+		at, ok := edgeAtom(sinfo, e)
+		if !ok || at.Kind != "nil" || at.Op != token.EQL {
+			return false
+		}
+		if SelField(sinfo, at.X) == brokerF {
+			return true
+		}
+		if v, ok := identObj(sinfo, at.X).(*types.Var); ok && !v.IsField() {
+			if d := p.singleDef(stop, v); d != nil && SelField(sinfo, ast.Unparen(d)) == brokerF {
+				return true
+			}
+		}
+		return false
+	}
+	before := sg.Reach([]*Node{sg.Entry}, closesBroker, noBroker)
+	feasBefore := p.FeasibleReach(stop, []*Node{sg.Entry}, closesBroker, noBroker)
+	early := false
+	for _, sn := range stopNodes {
+		if _, r := before[sn]; r && feasBefore[sn] {
+			early = true
+			stopNode = sn
+		}
+	}
+	if early {
 		c.R.Violate("R-RES/brokerls", p.Pos(stopNode.Ast), stop.Name, "broker closed before the server stops",
 			"GRPCServer.Stop stops the main gRPC server before it closes the broker: Serve returns as soon as the server has stopped and the plugin process exits, racing with (and usually beating) the removal of the brokered listeners' socket files", nil)
 	} else {
@@ -1880,7 +1925,11 @@ func ruleStdioDelivery(c *Ctx) {
 							}
 							seenW := g.Reach([]*Node{e.To}, func(y *Node) bool { return y == recvN }, nil)
 							if _, out := seenW[g.Exit]; out {
-								writeEnds = true
+								// feasible paths only: an inlined receive-and-write helper
+								// reports nil after logging, and the caller tests that
+								if p.FeasibleReach(f, []*Node{e.To}, func(y *Node) bool { return y == recvN }, nil)[g.Exit] {
+									writeEnds = true
+								}
 							}
 						}
 					}
